@@ -517,7 +517,7 @@ def decide(pid: str, tier: str, seed: int, verbose=False, only_units=None) -> in
         for u, i, why in witness_fail:
             print(f"CHECKER-DEFECT unit={u} witness[{i}]: {why}")
         return 3
-    if n_obl == 0:
+    if n_obl == 0 and not outside_subset:
         print("CHECKER-DEFECT: zero obligations generated")
         return 3
     if violations:
